@@ -77,15 +77,6 @@ def unbits(v):
     return n
 
 
-def pdict(algo):
-    """ints of an Algorithm-like object / dict"""
-    if isinstance(algo, dict):
-        return dict(algo)
-    return {"crc_width": algo.crc_width, "polynomial": algo.polynomial, "initial_crc": algo.initial_crc,
-            "reflect_input": bool(algo.reflect_input), "reflect_output": bool(algo.reflect_output),
-            "xor_output": algo.xor_output}
-
-
 def pjson(p):
     w = p["crc_width"]
     return {"w": w, "poly": bits(p["polynomial"], w), "init": bits(p["initial_crc"], w),
@@ -204,7 +195,7 @@ def hw_run(source, dw, seed, n_target):
             for _ in range(rng.randrange(maxn + 1)):
                 await cyc(0, 0, rng.getrandbits(dw))
 
-        if rng.random() < 0.3:                           # activity before the first start: unspecified outputs
+        if rng.random() < 0.3:                           # activity before the first start (reset = initial value)
             for _ in range(rng.randrange(1, 4)):
                 await cyc(0, rng.getrandbits(1), rng.getrandbits(dw))
         while len(steps) < n_target:
@@ -286,23 +277,24 @@ def res_trace(pspec, out):
 _EXP = re.compile(r'^"(<<778, .*>>)"$', re.M)
 
 
-def validate(ctx, traces, stage, mutant="", count_states=True, batch_size=3000):
-    """Batch validation by CrcTrace (same protocol as harness.tracecheck.validate; additionally collects the
-    "expected" lines).  Returns verdicts aligned with traces: ("ACC", steps, own, matches) or ("REJ", step, clause, expected)."""
+def validate(ctx, traces, stage, mutant="", count_states=True, jobs=1, cost=None):
+    """Batch validation by CrcTrace (protocol of harness.tracecheck.validate; additionally collects the "expected"
+    lines).  The batch is dealt into `jobs` single-worker TLC runs executed concurrently (several small JVMs use a
+    loaded machine far better than one TLC with many workers).  Returns verdicts aligned with traces:
+    ("ACC", steps, own, matches) or ("REJ", step, clause, expected)."""
     verdicts = [None] * len(traces)
     st_name = "%s/validate" % stage
-    for bi, off in enumerate(range(0, len(traces), batch_size)):
-        part = traces[off:off + batch_size]
-        path = os.path.join(ctx.tmp, "CrcTrace_%s_%d.json" % (re.sub(r"\W", "_", stage), off))
+    order = sorted(range(len(traces)), key=(lambda j: -cost[j]) if cost else (lambda j: j))
+    jobs = max(1, min(jobs, len(traces)))
+    parts = [order[k::jobs] for k in range(jobs)]
+
+    def one(k):
+        idx = parts[k]
+        path = os.path.join(ctx.tmp, "CrcTrace_%s_%d.json" % (re.sub(r"\W", "_", stage), k))
         with open(path, "w") as f:
-            json.dump({"traces": part}, f, separators=(",", ":"))
-        r = ctx.tlc("CrcTrace", stage=st_name, cfg_text=CFG_TRACE.format(mutant=mutant), env={"TRACE_FILE": path}, workers=8,
-                    timeout=3000, count=False)
-        st = ctx.cov["stages"][st_name]
-        st["batches"] = bi + 1
-        st["trace_states"] = st.get("trace_states", 0) + r.distinct if bi else r.distinct
-        if count_states:
-            ctx.cov["trace_states_checked"] = ctx.cov.get("trace_states_checked", 0) + r.distinct
+            json.dump({"traces": [traces[j] for j in idx]}, f, separators=(",", ":"))
+        r = ctx.tlc("CrcTrace", stage="%s#%d" % (st_name, k) if jobs > 1 else st_name, cfg_text=CFG_TRACE.format(mutant=mutant),
+                    env={"TRACE_FILE": path}, workers=1, timeout=3000, count=False)
         expected = {}
         for m in _EXP.finditer(r.out):
             v = json.loads(m.group(1).replace("<<", "[").replace(">>", "]"))
@@ -310,12 +302,24 @@ def validate(ctx, traces, stage, mutant="", count_states=True, batch_size=3000):
         for txt in r.printed():
             if txt.startswith('<<"ACC"') or txt.startswith('<<"REJ"'):
                 v = json.loads(txt.replace("<<", "[").replace(">>", "]"))
-                tid = v[1]
-                if v[0] == "ACC":
-                    verdicts[off + tid - 1] = ("ACC",) + tuple(v[2:])
-                else:
-                    verdicts[off + tid - 1] = ("REJ", v[2], v[3], expected.get(tid))
+                j = idx[v[1] - 1]
+                verdicts[j] = ("ACC",) + tuple(v[2:]) if v[0] == "ACC" else ("REJ", v[2], v[3], expected.get(v[1]))
         os.unlink(path)
+        return r.distinct, r.wall
+
+    if jobs > 1:
+        with ThreadPoolExecutor(jobs) as tp:
+            res = list(tp.map(one, range(jobs)))
+        stages = ctx.cov["stages"]
+        for k in range(jobs):
+            stages.pop("%s#%d" % (st_name, k), None)
+        stages[st_name] = {"tlc_runs": jobs, "tlc_wall_s_max": round(max(w for _, w in res), 2)}
+    else:
+        res = [one(0)]
+    st = ctx.cov["stages"][st_name]
+    st["trace_states"] = sum(d for d, _ in res)
+    if count_states:
+        ctx.cov["trace_states_checked"] = ctx.cov.get("trace_states_checked", 0) + st["trace_states"]
     missing = [j for j, v in enumerate(verdicts) if v is None]
     if missing:
         raise MachineryError("CrcTrace: no verdict for %d traces (first: %d) in stage %s" % (len(missing), missing[0], stage))
@@ -372,47 +376,60 @@ def run(ctx):
     if len(names) < 100:
         raise MachineryError("only %d catalogue entries with a published check value" % len(names))
 
-    # ---------------- mc + generator: TLC jobs run in threads, concurrently with the simulations -------------
-    mc_bounds = dict(widths="{1, 2, 3, 4}", dws="{1, 2, 3, 4}", maxwords=6, maxbits=10) if th else \
-        dict(widths="{1, 2, 3}", dws="{1, 2, 3, 4}", maxwords=5, maxbits=6)
-    cov_bounds = dict(widths="{1, 2}", dws="{1, 2, 3, 4}", maxwords=5, maxbits=6)
-    small_bounds = dict(widths="{1, 2}", dws="{1, 2, 3}", maxwords=4, maxbits=6)
-    gen_jobs = []
+    # ---------------- mc + generator: single-worker TLC runs in threads, concurrently with the simulations ----
+    # The (width, data width) plane is cut into independent TLC runs.  Bounds on the words since the last start:
+    # at most maxwords words and maxbits bits.
     if th:
-        for wd in (1, 2, 3, 4):
-            for d in (1, 2, 3, 4):
-                gen_jobs.append(dict(widths="{%d}" % wd, dws="{%d}" % d, maxwords=6, maxbits=9))
+        mc_jobs = [dict(widths="{1, 2}", dws="{1, 2, 3, 4}", workers=2, maxwords=6, maxbits=10)]
+        for w, d, k, mw, mbits in [(3, 1, 1, 6, 10), (3, 2, 2, 6, 10), (3, 3, 4, 6, 10), (3, 4, 1, 6, 10),
+                                   (4, 1, 2, 6, 8), (4, 2, 3, 3, 8), (4, 3, 1, 6, 8), (4, 4, 5, 6, 8)]:
+            mc_jobs.append(dict(widths="{%d}" % w, dws="{%d}" % d, workers=k, maxwords=mw, maxbits=mbits))
+        gen_jobs = [dict(widths="{%d}" % w, dws="{%d}" % d, maxwords=6 if w <= 3 else 3, maxbits=9 if w <= 3 else 8,
+                         workers=2 if w == 4 else 1) for w in (1, 2, 3, 4) for d in (1, 2, 3, 4)]
     else:
-        gen_jobs.append(dict(widths="{1, 2, 3}", dws="{1, 2, 3, 4}", maxwords=5, maxbits=6))
+        mb = dict(maxwords=5, maxbits=6)
+        mc_jobs = [dict(widths="{1, 2}", dws="{1, 2, 3, 4}", workers=1, **mb), dict(widths="{3}", dws="{2, 4}", workers=1, **mb),
+                   dict(widths="{3}", dws="{1}", workers=1, **mb), dict(widths="{3}", dws="{3}", workers=2, **mb)]
+        gb = dict(maxwords=4, maxbits=6)
+        gen_jobs = [dict(widths="{1, 2}", dws="{1, 2, 3, 4}", workers=1, **gb), dict(widths="{3}", dws="{1, 4}", workers=1, **gb),
+                    dict(widths="{3}", dws="{2}", workers=1, **gb), dict(widths="{3}", dws="{3}", workers=1, **gb)]
+    cov_bounds = dict(widths="{1, 2}", dws="{1, 2}", maxwords=3, maxbits=4)
+    small_bounds = dict(widths="{1, 2}", dws="{1, 2, 3}", maxwords=4, maxbits=6)
     mutants = [("tx_msb_always", "OwnCrcMatches", INVARIANTS),
                ("tx_msb_always", "OtherTrailerNoMatch", ["OtherTrailerNoMatch"]),
-               ("start_drops_word", "CrcIsFold", INVARIANTS),
-               ("refin_ignored", "RegOfBitStream", INVARIANTS)]
+               ("start_drops_word", "CrcIsFold", INVARIANTS)] + \
+        ([("refin_ignored", "RegOfBitStream", INVARIANTS)] if th else [])
 
-    def tlc_mc():
-        r = ctx.tlc("Crc", stage="mc/processor", cfg_text=cfg_mc(mc_bounds), workers=8, timeout=3000)
+    def jname(b):
+        return "w%s-d%s" % (re.sub(r"\W", "", b["widths"]), re.sub(r"\W", "", b["dws"]))
+
+    def tlc_mc(b):
+        bb = {k: v for k, v in b.items() if k != "workers"}
+        r = ctx.tlc("Crc", stage="mc/processor-" + jname(b), cfg_text=cfg_mc(bb), workers=b["workers"], timeout=3000)
         m = re.search(r"Finished computing initial states: (\d+) distinct", r.out)
-        if not m or r.distinct <= 4 * int(m.group(1)):
-            raise MachineryError("vacuous model run mc/processor: %d states from %s initial states" % (r.distinct, m and m.group(1)))
+        if not m or r.distinct <= 2 * int(m.group(1)):
+            raise MachineryError("vacuous model run mc/processor-%s: %d states from %s initial states" % (
+                jname(b), r.distinct, m and m.group(1)))
         return r
 
     def tlc_cov():
-        r = ctx.tlc("Crc", stage="mc/processor-coverage", cfg_text=cfg_mc(cov_bounds), workers=4, args=("-coverage", "1"),
+        r = ctx.tlc("Crc", stage="mc/processor-coverage", cfg_text=cfg_mc(cov_bounds), workers=1, args=("-coverage", "1"),
                     count=False)
         ctx.require_actions(r, ["Init", "Next"], "mc/processor-coverage")
         return r
 
     def tlc_mutant(m):
         return ctx.tlc("Crc", stage="mc/mutant-%s-%s" % (m[0], m[1]), cfg_text=cfg_mc(small_bounds, m[0], m[2]),
-                       workers=2, expect_violation=m[1], count=False)
+                       workers=1, expect_violation=m[1], count=False)
 
     def tlc_gen(b):
-        return ctx.tlc("Crc", stage="small/gen-w%s-d%s" % (re.sub(r"\W", "", b["widths"]), re.sub(r"\W", "", b["dws"])),
-                       cfg_text=CFG_GEN.format(**b), workers=4 if th else 8, timeout=3000)
+        bb = {k: v for k, v in b.items() if k != "workers"}
+        return ctx.tlc("Crc", stage="small/gen-" + jname(b), cfg_text=CFG_GEN.format(**bb), workers=b["workers"], timeout=3000)
 
-    ex = ThreadPoolExecutor(5)
+    ex = ThreadPoolExecutor(12)
+    order = sorted(range(len(mc_jobs)), key=lambda j: -mc_jobs[j]["workers"])
+    fut_mc = [ex.submit(tlc_mc, mc_jobs[j]) for j in order]
     fut_gen = [ex.submit(tlc_gen, b) for b in gen_jobs]
-    fut_mc = ex.submit(tlc_mc)
     fut_misc = [ex.submit(tlc_cov)] + [ex.submit(tlc_mutant, m) for m in mutants]
 
     # ---------------- catalogue: published check values; sw: random messages --------------------------------
@@ -478,7 +495,7 @@ def run(ctx):
         ctx.case(("residue", n))
 
     def judge_sw():
-        vs = validate(ctx, batch, "sw")
+        vs = validate(ctx, batch, "sw", jobs=4 if th else 2)
         ctx.cov["traces_validated_against_impl"] -= n_table          # table rows are not executions
         for v, role in zip(vs, roles):
             if role[0] == "table":
@@ -534,19 +551,19 @@ def run(ctx):
                 firsts.append(n)
         rest = [n for n in uniq_names if n not in firsts]
         hw_names = sorted(set(firsts + rng.sample(rest, min(len(rest), 24))))
-    n_target = 120 if th else 50
+    n_target = 100 if th else 40
     hw_jobs, hw_meta = [], []
     for n in hw_names:
         w = by_name[n]["params"]["crc_width"]
         for dw in [1, 3, 8, 16, 32]:
             if not th and sim_cost(w, dw) > sim_cost(32, 32):
                 continue                                     # quick tier: the widest XOR networks are left to the thorough tier
-            reps = 1 if (not th or sim_cost(w, dw) > sim_cost(32, 16)) else 3
+            reps = 1 if (not th or sim_cost(w, dw) > sim_cost(32, 16)) else 2
             for rep in range(reps):
                 seed = rng.getrandbits(40)
                 hw_jobs.append((("catalog", n), dw, seed, n_target))
                 hw_meta.append({"stage": "hw", "name": n, "params": by_name[n]["params"], "dw": dw, "seed": seed, "n": n_target})
-    for j in range(300 if th else 40):
+    for j in range(300 if th else 32):
         p = random_params(rng, 40)
         w = p["crc_width"]
         divs = [d for d in range(1, w + 1) if w % d == 0]
@@ -567,7 +584,8 @@ def run(ctx):
             continue
         hw_traces.append(hw_trace(meta["params"], meta["dw"], out[1]))
         hw_keep.append((meta, key, out[2]))
-    vs = validate(ctx, hw_traces, "hw", batch_size=3000)
+    vs = validate(ctx, hw_traces, "hw", jobs=12 if th else 6,
+                  cost=[t["p"]["w"] * t["dw"] * len(t["steps"]) + 50 * len(t["steps"]) for t in hw_traces])
     own_expected = own_seen = bad_trailers = matches = 0
     for v, (meta, key, info), t in zip(vs, hw_keep, hw_traces):
         if v[0] == "REJ":
@@ -651,7 +669,8 @@ def run(ctx):
                 "real_compute": hex(roles[k][3]), "verdict": [str(x) for x in sw_vs[k][:3]]})
     for f in fut_misc:
         f.result()
-    fut_mc.result()
+    for f in fut_mc:
+        f.result()
     ex.shutdown()
 
     ctx.cov["exhaustive"] = False
@@ -661,7 +680,8 @@ def run(ctx):
                        "words were accepted, a software case when the message is not empty")
     ctx.assume("match_detected for 'any other trailer' is only required to be low when the polynomial has the +1 term "
                "(otherwise distinct trailers necessarily leave the same register)")
-    ctx.assume("crc / match_detected are unspecified before the first start")
+    ctx.assume("out of reset the Processor is in the state a start establishes (initial_crc is documented as the register's "
+               "reset value)")
     ctx.assume("published check/residue values: data/crc_check_values.json (reveng values as recorded in the repository's "
                "test table at extraction time, parameters frozen from catalog.py at extraction time)")
 
